@@ -72,27 +72,30 @@ theorem C07_connect_initiator_continues (s : Sess) (hc : s.st.connected = false)
     rw [q4, c1]
   · show Obs.wire logon ∈ (sendLogonInReplyTo (connectBase s) false).log
     rw [q6 c2]; simp [logon]
-  · show (logonMsg (connectBase s) false).f.get? 141 = none
-    unfold logonMsg mkOut Fields.get?
-    simp
+  · exact logonMsgX_no141 _ _
 
 /-! ## a Logon carrying ResetSeqNumFlag=Y -/
 
 /-- **received (acceptor).**  In the Logon state, an inbound Logon that passes the gates, carries 141=Y, is numbered 1 and
     is not the echo of a reset we asked for: the session is established, both counters are 2 (the inbound Logon was number 1,
-    the reply Logon is outbound number 1), the reply carries 141=Y and is the only stored message, `sentReset` is down. -/
+    the reply Logon is outbound number 1), the reply carries 141=Y and is the only stored message, `sentReset` is down.
+    `hnx` (new with EnableNextExpectedMsgSeqNum): the Logon does not claim, in tag 789, a number above 1 — after the reset
+    we have sent nothing, such a Logon is refused (C07_next_expected_ahead_refused); without the option, or without a readable
+    789, the hypothesis holds (`nxAbove_off`, `nxAbove_absent`).  The reply is `logonMsgRe base true m`: with the option on
+    and a readable 789 in `m` it carries 789 = 2 (C07_next_expected_reply). -/
 theorem C07_logon_reset_received (s : Sess) (m : InMsg) (hi : s.cfg.initiator = false) (hk : kindOf m = "A")
     (h5 : (s.cfg.bs == 5 && !m.f.has 1137) = false) (hg : GateMsg s.cfg m) (ht : TimeGate s m)
-    (hv : callbackVerdict m = none) (hf : logonResetFlag m = true) (hsr : s.sentReset = false) (h34 : getInt m 34 = .val 1) :
-    ∃ base : Sess, base.cfg = s.cfg ∧
-    let reply : OutMsg := { stamp base ((logonMsg base true).inReplyTo m) with seq := 1 }
+    (hv : callbackVerdict m = none) (hf : logonResetFlag m = true) (hsr : s.sentReset = false) (h34 : getInt m 34 = .val 1)
+    (hnx : nxAbove s.cfg m 1 = false) :
+    ∃ base : Sess, base.cfg = s.cfg ∧ base.store.target = 1 ∧
+    let reply : OutMsg := { stamp base ((logonMsgRe base true m).inReplyTo m) with seq := 1 }
     let r := logonFixMsgIn s m
     r.2 = .inSession ∧ r.1.store.sender = 2 ∧ r.1.store.target = 2 ∧ r.1.sentReset = false
     ∧ r.1.store.msgs = (if s.cfg.persist then [(1, reply)] else [])
     ∧ (141, "Y") ∈ reply.f ∧ reply.kind = "A" ∧ reply.seq = 1
     ∧ (s.out = true → Obs.wire reply ∈ r.1.log) ∧ Obs.onLogon ∈ r.1.log ∧ Obs.reset ∈ r.1.log := by
-  obtain ⟨base, hb, h⟩ := logon_reset_received s m hi h5 hg ht hv hf hsr h34
-  refine ⟨base, hb, ?_⟩
+  obtain ⟨base, hb, hbt, h⟩ := logon_reset_received s m hi h5 hg ht hv hf hsr h34 hnx
+  refine ⟨base, hb, hbt, ?_⟩
   intro reply r
   have hr : r = ((handleLogon s m).1, .inSession) := logonFixMsgIn_of_ok s m hk h.1
   rw [hr]
@@ -173,7 +176,7 @@ theorem C07_own_reset_answer_not_answered (s : Sess) (m : InMsg) (hsr : s.sentRe
     `C07.echo_of_own_reset_resets_again{role=acceptor}` on the unfixed tree) -/
 theorem C07_orig_echo_of_own_reset_resets_again (s : Sess) (m : InMsg) (hi : s.cfg.initiator = false) :
     let base := replyBase s m
-    let again : OutMsg := { stamp base ((logonMsg base true).inReplyTo m) with seq := 1 }
+    let again : OutMsg := { stamp base ((logonMsgRe base true m).inReplyTo m) with seq := 1 }
     let s' := logonReplyOrig s m true
     s'.store.epoch = s.store.epoch + 1 ∧ s'.store.sender = 2 ∧ s'.store.target = 1
     ∧ s'.store.msgs = (if s.cfg.persist then [(1, again)] else []) ∧ (141, "Y") ∈ again.f ∧ again.kind = "A"
@@ -186,7 +189,7 @@ theorem C07_orig_echo_of_own_reset_resets_again (s : Sess) (m : InMsg) (hi : s.c
     rw [hi]; rfl
   obtain ⟨q1, q2, q3, _, _, _, _, q8, q9⟩ := sendLogonRe_reset base m
   rw [hs']
-  refine ⟨by rw [q8, b3], q1, q2, by rw [q3, b1], logonMsg_mem141 _, rfl, fun ho => ?_⟩
+  refine ⟨by rw [q8, b3], q1, q2, by rw [q3, b1], logonMsgRe_mem141 _ _, rfl, fun ho => ?_⟩
   have := q9 (by rw [b4]; exact ho)
   rw [this]
   exact ⟨by simp [again], by simp⟩
@@ -273,6 +276,235 @@ theorem C07_reset_time_only_when_crossed (s : Sess) (now : Int)
 theorem C07_reset_time_records_clock (s : Sess) (now : Int) (rs : Nat) (hrs : s.cfg.resetSeqTime = some rs) :
     (checkResetTime s now).lastCheckedReset = some now :=
   checkResetTime_records s now rs hrs
+
+/-! ## EnableNextExpectedMsgSeqNum: tag 789 of the Logons we send, the peer's tag 789
+
+No property sentence speaks about this option; the theorems below DESCRIBE what session.go does (l.189–206, l.577–596), they
+claim nothing about what it should do.  The option is tied to the code by the correspondence runs only.  Where the behaviour
+looks unintended it is written up in notes/proofs_b_nx.md (observations 1–5, proposed patch notes/nx_proposed.diff). -/
+
+/-- **what our own Logon carries** (initiator at connect, ResetSeqTime): with the option on, tag 789 = `NextTargetMsgSeqNum() + 1`
+    as it stands BEFORE the Logon is prepared for sending — one more than the inbound number expected (and, for a Logon carrying
+    141=Y, a number from before the reset: the expected number afterwards is 1); with the option off there is no tag 789 -/
+theorem C07_next_expected_own (s : Sess) (reset : Bool) :
+    (s.cfg.nextExpected = true → (789, toString (s.store.target + 1)) ∈ (logonMsg s reset).f)
+    ∧ (s.cfg.nextExpected = false → (logonMsg s reset).f.get? 789 = none)
+    ∧ (sendLogonInReplyTo s reset).store.target = (if reset then 1 else s.store.target) := by
+  have ht : (sendLogonInReplyTo s reset).store.target = (if reset then 1 else s.store.target) := by
+    cases reset
+    · exact (sendLogon_plain s).2.1
+    · exact (sendLogon_reset s).2.1
+  refine ⟨fun h => ?_, fun h => ?_, ht⟩
+  · have : logonMsg s reset = logonMsgX s reset (some (s.store.target + 1)) := by
+      unfold logonMsg nxOwn; rw [h]; rfl
+    rw [this]; exact logonMsgX_mem789 s reset _
+  · have : logonMsg s reset = logonMsgX s reset none := by unfold logonMsg; rw [nxOwn_off s h]
+    rw [this]; exact logonMsgX_no789 s reset
+
+/-- **what the acceptor's reply carries**: with the option on and a readable tag 789 in the Logon being answered, tag 789 =
+    `NextTargetMsgSeqNum() + 1` (the Logon being answered is not counted yet: this is the expected number after the Logon has
+    been accepted, `C07_next_expected_accepted`); without the option, or when the peer's Logon has no readable 789, the reply
+    has no tag 789 -/
+theorem C07_next_expected_reply (s : Sess) (reset : Bool) (m : InMsg) :
+    (s.cfg.nextExpected = true → (peerNext m).isSome = true → (789, toString (s.store.target + 1)) ∈ (logonMsgRe s reset m).f)
+    ∧ ((s.cfg.nextExpected = false ∨ peerNext m = none) → (logonMsgRe s reset m).f.get? 789 = none) := by
+  refine ⟨fun h1 h2 => ?_, fun h => ?_⟩
+  · have : logonMsgRe s reset m = logonMsgX s reset (some (s.store.target + 1)) := by
+      unfold logonMsgRe nxReply; rw [h1, h2]; rfl
+    rw [this]; exact logonMsgX_mem789 s reset _
+  · have : logonMsgRe s reset m = logonMsgX s reset none := by
+      unfold logonMsgRe nxReply
+      rcases h with h | h
+      · rw [h]; rfl
+      · rw [h]; simp
+    rw [this]; exact logonMsgX_no789 s reset
+
+/-- **higher, acceptor: a Logon whose tag 789 is above our next outbound number is refused** (`sendLogonInReplyTo`: "we can't
+    resend what we never sent"), whenever the acceptor is about to answer — a Logon carrying tag 141 included (after that reset
+    our number is 1): `handleLogon` ends with RejectLogon before the reply, before the logon notification and before the
+    Logon's number is counted; nothing is stored or sent, `sentReset` stays (the HeartBtInt has been adopted by then).
+    An initiator never refuses (`logonRefuses` is false for it by definition): it treats a higher 789 like a lower one. -/
+theorem C07_next_expected_ahead_refused (s : Sess) (m : InMsg) (n ns : Int) (hi : s.cfg.initiator = false)
+    (hnx : s.cfg.nextExpected = true) (hp : peerNext m = some n) (hgt : n > s.store.sender)
+    (hrole : (logonResetFlag m && s.sentReset && s.st.loggedOn) = false) :
+    logonTail s m ns = (logonRefused s m, some (.rej .rejectLogon))
+    ∧ (logonRefused s m).store = s.store ∧ (logonRefused s m).log = s.log ∧ (logonRefused s m).toSend = s.toSend
+    ∧ (logonRefused s m).sentReset = s.sentReset := by
+  have hr : logonRefuses s m (logonResetFlag m) = true := by
+    unfold logonRefuses nxRefuses nxAbove
+    rw [hnx, hp, hi, hrole]
+    simp [hgt]
+  refine ⟨by unfold logonTail; rw [if_pos hr], ?_⟩
+  unfold logonRefused
+  split
+  · split <;> exact ⟨rfl, rfl, rfl, rfl⟩
+  · exact ⟨rfl, rfl, rfl, rfl⟩
+
+/-- … and only then: a refusal means an acceptor with the option on and a Logon whose 789 is above our next outbound number -/
+theorem C07_next_expected_refused_only_ahead (s : Sess) (m : InMsg) (flag : Bool) (h : logonRefuses s m flag = true) :
+    s.cfg.initiator = false ∧ s.cfg.nextExpected = true ∧ ∃ n, peerNext m = some n ∧ n > s.store.sender := by
+  unfold logonRefuses nxRefuses nxAbove at h
+  simp only [Bool.and_eq_true] at h
+  obtain ⟨⟨h0, _⟩, h1, h2⟩ := h
+  refine ⟨by simpa using h0, h1, ?_⟩
+  cases hp : peerNext m with
+  | none => rw [hp] at h2; cases h2
+  | some n => rw [hp] at h2; exact ⟨n, rfl, by simpa using h2⟩
+
+/-- in the logon state the refusal is answered with a Logout, the Logon's number is counted and the connection dropped -/
+theorem C07_next_expected_refusal_logs_out (s s' : Sess) (m : InMsg) (hk : kindOf m = "A")
+    (h : handleLogon s m = (s', some (.rej .rejectLogon))) : logonFixMsgIn s m = shutdownWithReason s' m true := by
+  unfold logonFixMsgIn
+  rw [if_neg (by simp [hk]), h]
+
+/-- **equal, absent, unreadable, option off, or a Logon carrying tag 141: nothing happens** -/
+theorem C07_next_expected_equal (s : Sess) (m : InMsg) (ns : Int)
+    (h : s.cfg.nextExpected = false ∨ m.f.has 141 = true ∨ peerNext m = none ∨ peerNext m = some ns) : nxEval s m ns = (s, none) :=
+  nxEval_quiet s m ns h
+
+/-- **different (lower — or, for an initiator, higher), with message persistence: the implied gap fill.**  Option on, no tag
+    141, the peer's 789 = `n` differs from `ns`, our next outbound number when the Logon arrived (before a reset the Logon
+    caused, before our reply): exactly one SequenceReset-GapFill with PossDupFlag is handed to `EnqueueBytesAndSend`, numbered
+    `n`, NewSeqNo = `ns + 1` (the `+ 1` is the acceptor's reply; an initiator sends none).  Nothing is replayed.  The store is
+    not touched: nothing stored is lost, both counters stay.  With a connection it is the last thing written (behind whatever
+    was queued, when logged on). -/
+theorem C07_next_expected_differs (s : Sess) (m : InMsg) (ns n : Int) (hnx : s.cfg.nextExpected = true) (h141 : m.f.has 141 = false)
+    (hp : peerNext m = some n) (hne : n ≠ ns) (hper : s.cfg.persist = true) :
+    let gf := gapFillRe s m n (ns + 1)
+    nxEval s m ns = (enqueueAndSend s gf, none)
+    ∧ gf.kind = "4" ∧ gf.seq = n ∧ gf.f = [(36, toString (ns + 1)), (43, "Y"), (122, "+"), (123, "Y")]
+    ∧ (nxEval s m ns).1.store = s.store
+    ∧ (s.out = true → (nxEval s m ns).1.toSend = []
+        ∧ (nxEval s m ns).1.log = .wire gf :: ((if s.st.loggedOn then s.toSend else []).map Obs.wire).reverse ++ s.log) := by
+  intro gf
+  have e := nxEval_fill s m ns n hnx h141 hp hne hper
+  refine ⟨e, rfl, rfl, rfl, (nxEval_frame s m ns).1, fun ho => ?_⟩
+  rw [e]
+  exact ⟨(enqueueAndSend_log s gf ho).2, (enqueueAndSend_log s gf ho).1⟩
+
+/-- **different, without message persistence: the error `targetTooHigh{peer's 789, our outbound number}`.**  Nothing is sent
+    and nothing changes at this point; `logonFinish` returns the error AFTER the reply, the peer timer and the logon
+    notification and BEFORE the Logon's own number is checked and counted. -/
+theorem C07_next_expected_differs_nopersist (s : Sess) (m : InMsg) (ns n : Int) (hnx : s.cfg.nextExpected = true)
+    (h141 : m.f.has 141 = false) (hp : peerNext m = some n) (hne : n ≠ ns) (hper : s.cfg.persist = false) :
+    nxEval s m ns = (s, some (.tooHigh n ns))
+    ∧ logonFinish s m ns = (((s.setSentReset false).emit (.armPeer (1200 * s.hb))).emit .onLogon, some (.rej (.tooHigh n ns))) := by
+  refine ⟨nxEval_nopersist s m ns n hnx h141 hp hne hper, ?_⟩
+  unfold logonFinish
+  rw [nxEval_nopersist (((s.setSentReset false).emit (.armPeer (1200 * s.hb))).emit .onLogon) m ns n hnx h141 hp hne hper]
+
+/-- … which the logon state treats like a gap in the INBOUND numbers (`doTargetTooHigh`): whatever pair `handleLogon` reports,
+    a ResendRequest from the second number to the first − 1 is queued and the state becomes `resend` with that range.  For
+    the pair above that is a request from OUR next outbound number to the peer's 789 − 1. -/
+theorem C07_next_expected_nopersist_logon_state (s s' : Sess) (m : InMsg) (n t : Int) (hk : kindOf m = "A")
+    (h : handleLogon s m = (s', some (.rej (.tooHigh n t)))) :
+    logonFixMsgIn s m = ((sendResendRequest s' t (n - 1)).1, .resend [] (sendResendRequest s' t (n - 1)).2.1 (sendResendRequest s' t (n - 1)).2.2) := by
+  unfold logonFixMsgIn
+  rw [if_neg (by simp [hk]), h]
+
+/-- **a Logon accepted, end to end** (either role; no reset configured or asked for; the Logon carries the expected number;
+    an acceptor does not refuse it; message persistence on): the session is notified, the expected inbound number advances by
+    one, the outbound number by one for the acceptor's reply and not at all for an initiator, nothing stored is lost (the reply
+    is the only new entry), the epoch stays.  The acceptor's reply is written and — option on, readable 789 in the peer's
+    Logon — carries in tag 789 exactly the inbound number expected afterwards.  When the peer's 789 differs from our next
+    outbound number as it was on arrival, the gap fill from the peer's 789 is written with NewSeqNo = that number + 1: the
+    number an acceptor uses next, one MORE than the number an initiator uses next. -/
+theorem C07_next_expected_accepted (s : Sess) (m : InMsg)
+    (h5 : (s.cfg.bs == 5 && !m.f.has 1137) = false) (hg : GateMsg s.cfg m) (ht : TimeGate s m)
+    (hv : callbackVerdict m = none) (hro : (if s.cfg.initiator then false else s.cfg.resetOnLogon) = false)
+    (hf : logonResetFlag m = false) (h34 : getInt m 34 = .val s.store.target)
+    (hnr : s.cfg.initiator = true ∨ nxRefuses s m = false) (hper : s.cfg.persist = true) :
+    let r := handleLogon s m
+    r.2 = none ∧ r.1.store.target = s.store.target + 1
+    ∧ r.1.store.sender = (if s.cfg.initiator then s.store.sender else s.store.sender + 1)
+    ∧ r.1.store.epoch = s.store.epoch ∧ s.store.msgs <:+ r.1.store.msgs ∧ Obs.onLogon ∈ r.1.log
+    ∧ (s.cfg.initiator = false → ∃ base : Sess, base.cfg = s.cfg ∧ base.store = s.store ∧
+        let reply : OutMsg := { stamp base ((logonMsgRe base false m).inReplyTo m) with seq := s.store.sender }
+        (s.out = true → Obs.wire reply ∈ r.1.log)
+        ∧ (s.cfg.nextExpected = true → (peerNext m).isSome = true → (789, toString r.1.store.target) ∈ reply.f))
+    ∧ (s.cfg.nextExpected = true → m.f.has 141 = false → ∀ n, peerNext m = some n → n ≠ s.store.sender → s.out = true →
+        ∃ gf : OutMsg, Obs.wire gf ∈ r.1.log ∧ gf.kind = "4" ∧ gf.seq = n
+          ∧ gf.f = [(36, toString (s.store.sender + 1)), (43, "Y"), (122, "+"), (123, "Y")]) := by
+  intro r
+  obtain ⟨s2, c1, c2, c3, c4, c5, c6, _, _, hl⟩ :=
+    handleLogon_passes s m h5 hg ht hv hro (Or.inl hf) s.store.target h34 (Int.le_refl _)
+  have hnr2 : logonRefuses s2 m (logonResetFlag m) = false := by
+    unfold logonRefuses
+    rcases hnr with hi | hnr
+    · rw [c1, hi]; rfl
+    · have : nxRefuses s2 m = nxRefuses s m := by unfold nxRefuses; rw [c1, c3]
+      rw [this, hnr, Bool.and_false]
+  -- the reply step
+  have hx : ∃ x : Sess, logonReply s2 m false = x ∧ x.store.target = s.store.target
+      ∧ x.store.sender = (if s.cfg.initiator then s.store.sender else s.store.sender + 1)
+      ∧ x.store.epoch = s.store.epoch ∧ s.store.msgs <:+ x.store.msgs ∧ x.cfg = s.cfg ∧ x.out = s.out
+      ∧ (s.cfg.initiator = false → ∃ base : Sess, base.cfg = s.cfg ∧ base.store = s.store ∧
+          (s.out = true → Obs.wire { stamp base ((logonMsgRe base false m).inReplyTo m) with seq := s.store.sender } ∈ x.log)) := by
+    cases hi : s.cfg.initiator
+    · obtain ⟨b1, b2, b3, b4, b5⟩ := replyBase_frame s2 m
+      obtain ⟨q1, q2, q3, q4, _, q6, _, q8, q9⟩ := sendLogonRe_plain (replyBase s2 m) m
+      have e : logonReply s2 m false = sendLogonRe (replyBase s2 m) false m := by
+        rw [logonReply_base, c1, hi]; rfl
+      refine ⟨_, e, by rw [q2, b3, c3], by rw [q1, b3, c3]; rfl, by rw [q3, b3, c3], ?_, by rw [q6, b1, c1], by rw [q8, b4, c5], fun _ => ?_⟩
+      · rw [q4, b3, c3]
+        split
+        · exact List.suffix_cons _ _
+        · exact List.suffix_refl _
+      · refine ⟨replyBase s2 m, b1.trans c1, b3.trans c3, fun ho => ?_⟩
+        have := (q9 (by rw [b4, c5]; exact ho)).1
+        rw [this, b3, c3]; simp
+    · have e : logonReply s2 m false = s2 := by unfold logonReply; rw [c1, hi]; rfl
+      exact ⟨s2, e, by rw [c3], by rw [c3]; rfl, by rw [c3], by rw [c3]; exact List.suffix_refl _, c1, c5, fun h => by cases h⟩
+  obtain ⟨x, ex, x1, x2, x3, x4, x5, x6, x7⟩ := hx
+  -- notification, the peer's 789, the number consumed
+  obtain ⟨y, hy⟩ : ∃ y, y = ((x.setSentReset false).emit (.armPeer (1200 * x.hb))).emit .onLogon := ⟨_, rfl⟩
+  have ys : y.store = x.store := by rw [hy]; rfl
+  have ycfg : y.cfg = s.cfg := by rw [hy]; exact x5
+  obtain ⟨z, hz⟩ : ∃ z, z = (nxEval y m s.store.sender).1 := ⟨_, rfl⟩
+  obtain ⟨f1, _, _, _, _, _⟩ := nxEval_frame y m s.store.sender
+  have zs : z.store = x.store := by rw [hz, f1, ys]
+  obtain ⟨pre, hpre⟩ := nxEval_log y m s.store.sender
+  have hnone : (nxEval y m s.store.sender).2 = none := nxEval_noErr y m _ (Or.inr (by rw [ycfg]; exact hper))
+  have hfin : logonFinish x m s.store.sender = (incrTarget z, none) := by
+    unfold logonFinish
+    rw [← hy]
+    have e : nxEval y m s.store.sender = (z, none) := by rw [hz, ← hnone]
+    rw [e]
+    simp only []
+    have : checkTooHigh z m = none := by
+      unfold checkTooHigh; rw [h34]; simp only []
+      rw [if_neg]; rw [zs, x1]; omega
+    rw [this]
+  have hr : r = (incrTarget z, none) := by
+    show handleLogon s m = _
+    rw [hl]; unfold logonTail; rw [hnr2, hf]; simp only [Bool.false_eq_true, if_false]
+    rw [ex, hfin]
+  have hzlog : z.log = pre ++ (Obs.onLogon :: Obs.armPeer (1200 * x.hb) :: x.log) := by rw [hz, hpre, hy]; rfl
+  rw [hr]
+  refine ⟨rfl, ?_, ?_, ?_, ?_, ?_, fun hi => ?_, fun hnx h141 n hp hne ho => ?_⟩
+  · show z.store.target + 1 = _; rw [zs, x1]
+  · show z.store.sender = _; rw [zs, x2]
+  · show z.store.epoch = _; rw [zs, x3]
+  · show s.store.msgs <:+ z.store.msgs; rw [zs]; exact x4
+  · show Obs.onLogon ∈ Obs.incT :: z.log; rw [hzlog]; simp
+  · obtain ⟨base, hb1, hb2, hb3⟩ := x7 hi
+    refine ⟨base, hb1, hb2, ?_⟩
+    intro reply
+    refine ⟨fun ho => ?_, fun hnx hps => ?_⟩
+    · show Obs.wire reply ∈ Obs.incT :: z.log
+      rw [hzlog]
+      have := hb3 ho
+      simp only [List.mem_cons, List.mem_append]
+      exact Or.inr (Or.inr (Or.inr (Or.inr this)))
+    · show (789, toString (z.store.target + 1)) ∈ (logonMsgRe base false m).f
+      rw [zs, x1, ← hb2]
+      exact (C07_next_expected_reply base false m).1 (by rw [hb1]; exact hnx) hps
+  · obtain ⟨_, k2, k3, k4, _, k6⟩ := C07_next_expected_differs y m s.store.sender n (by rw [ycfg]; exact hnx) h141 hp hne
+      (by rw [ycfg]; exact hper)
+    have hyo : y.out = true := by rw [hy]; show x.out = true; rw [x6]; exact ho
+    refine ⟨gapFillRe y m n (s.store.sender + 1), ?_, k2, k3, k4⟩
+    show Obs.wire _ ∈ Obs.incT :: z.log
+    rw [hz, (k6 hyo).2]; simp
 
 /-! ## ResetOnLogout / ResetOnDisconnect -/
 
@@ -413,6 +645,57 @@ def c07Up (cfg : Cfg) (logon : InMsg := c07Logon 7 []) : Sess :=
 #guard (let logon40 : InMsg := { f := [(8, "FIX.4.0"), (35, "A"), (49, "TGT"), (56, "SND"), (34, "7"), (52, "@0"), (98, "0"), (108, "30")] }
         let r := step (c07Up { c07Rst with bs := 0 } logon40) (.resetTime (86400 + 43200))
         (c07Summary r.1, c07Wires r.2.1)) == ((2, 1, [1], 1, "InSession"), [("A", 1, [(108, "30"), (141, "Y")])])
+/-! ### EnableNextExpectedMsgSeqNum (tag 789): what the code does (no property speaks about it; notes/proofs_b_nx.md) -/
+def c07NxA : Cfg := { nextExpected := true }
+def c07NxI : Cfg := { nextExpected := true, initiator := true }
+/-- connected, the peer's Logon not yet received; counters (5, 7) — an initiator has sent its Logon: (6, 7) -/
+def c07Conn (cfg : Cfg) : Sess := runEvents (initSess cfg 5 7) [.connect]
+-- the hypotheses of C07_next_expected_accepted hold for the acceptor and a Logon numbered 7 whose 789 is 3 or 5
+#guard (checkBeginString (c07Conn c07NxA) (c07Logon 7 [(789, "3")])).isNone && (checkCompID (c07Conn c07NxA) (c07Logon 7 [(789, "3")])).isNone
+        && (checkSendingTime (c07Conn c07NxA) (c07Logon 7 [(789, "3")])).isNone && (validate c07NxA (c07Logon 7 [(789, "3")])).isNone
+        && (callbackVerdict (c07Logon 7 [(789, "3")])).isNone && !logonResetFlag (c07Logon 7 [(789, "3")])
+        && !nxRefuses (c07Conn c07NxA) (c07Logon 7 [(789, "3")]) && !nxRefuses (c07Conn c07NxA) (c07Logon 7 [(789, "5")])
+        && nxRefuses (c07Conn c07NxA) (c07Logon 7 [(789, "6")])
+-- acceptor, equal: our next outbound number is 5, the peer expects 5: the reply (number 5) carries 789 = 8, nothing else is sent
+#guard (let r := step (c07Conn c07NxA) (.incomingMsg (some (c07Logon 7 [(789, "5")]))); (c07Summary r.1, c07Wires r.2.1))
+       == ((6, 8, [5], 0, "InSession"), [("A", 5, [(108, "30"), (789, "8")])])
+-- acceptor, lower: the peer expects 3: reply, then ONE gap fill 3 → 6; counters as before, nothing lost
+#guard (let r := step (c07Conn c07NxA) (.incomingMsg (some (c07Logon 7 [(789, "3")]))); (c07Summary r.1, c07Wires r.2.1))
+       == ((6, 8, [5], 0, "InSession"), [("A", 5, [(108, "30"), (789, "8")]), ("4", 3, [(36, "6"), (43, "Y"), (122, "+"), (123, "Y")])])
+-- acceptor, higher: the peer expects 6, we have not sent 5 yet: refused — Logout, no logon notification, the Logon's number counted
+#guard (let r := step (c07Conn c07NxA) (.incomingMsg (some (c07Logon 7 [(789, "6")]))); (c07Summary r.1, c07Wires r.2.1, r.2.1.filter (· == .onLogon)))
+       == ((6, 8, [5], 0, "Latent"), [("5", 5, [])], [])
+-- no 789 in the peer's Logon, or the option off: the reply has none either, nothing else happens
+#guard (let r := step (c07Conn c07NxA) (.incomingMsg (some (c07Logon 7 []))); c07Wires r.2.1) == [("A", 5, [(108, "30")])]
+#guard (let r := step (c07Conn {}) (.incomingMsg (some (c07Logon 7 [(789, "3")]))); c07Wires r.2.1) == [("A", 5, [(108, "30")])]
+-- a reset Logon (141=Y): its 789 is not evaluated for a gap fill, but 789 = 2 is above the reset acceptor's number 1: refused
+#guard (let r := step (c07Conn c07NxA) (.incomingMsg (some (c07Logon 1 [(141, "Y"), (789, "1")]))); (c07Summary r.1, c07Wires r.2.1))
+       == ((2, 2, [1], 2, "InSession"), [("A", 1, [(108, "30"), (141, "Y"), (789, "2")])])
+#guard (let r := step (c07Conn c07NxA) (.incomingMsg (some (c07Logon 1 [(141, "Y"), (789, "2")]))); (c07Summary r.1, c07Wires r.2.1))
+       == ((2, 2, [1], 1, "Latent"), [("5", 1, [])])
+-- OBSERVATIONS (notes/proofs_b_nx.md 1–5; none of them breaks a property sentence as written, see there):
+-- (1) the initiator's Logon carries 789 = 8 while it expects 7; the ResetSeqTime Logon carries the number from before its own reset
+#guard (let r := step (initSess c07NxI 5 7) .connect; (c07Summary r.1, c07Wires r.2.1)) == ((6, 7, [5], 0, "Logon"), [("A", 5, [(108, "30"), (789, "8")])])
+#guard (let r := step (c07Up { c07Rst with nextExpected := true }) (.resetTime (86400 + 43200)); (c07Summary r.1, c07Wires r.2.1))
+       == ((2, 1, [1], 1, "InSession"), [("A", 1, [(108, "30"), (141, "Y"), (789, "9")])])
+-- (2) without persistence a lower 789 is reported as `targetTooHigh{3, 5}`: reply and logon notification given, then a ResendRequest
+--     from OUR outbound number 5 queued, state Resend, and the Logon's own number NOT counted (expected stays 7)
+#guard (let r := step (c07Conn { c07NxA with persist := false }) (.incomingMsg (some (c07Logon 7 [(789, "3")])))
+        (c07Summary r.1, c07Wires r.2.1, r.1.toSend.map (fun o => (o.kind, o.f)), r.2.1.filter (· == .onLogon)))
+       == ((7, 7, [], 0, "Resend"), [("A", 5, [(108, "30"), (789, "8")])], [("2", [(7, "5"), (16, "0")])], [.onLogon])
+-- (3) an initiator's gap fill carries NewSeqNo 7 while its next message is 6
+#guard (let r := step (c07Conn c07NxI) (.incomingMsg (some (c07Logon 7 [(789, "3")]))); (c07Summary r.1, c07Wires r.2.1))
+       == ((6, 8, [5], 0, "InSession"), [("4", 3, [(36, "7"), (43, "Y"), (122, "+"), (123, "Y")])])
+-- (4) ResetOnLogon: the peer's 789 = 1 is compared with the number from before the reset (5): a gap fill 1 → 6 behind reply number 1
+#guard (let r := step (c07Conn { c07NxA with resetOnLogon := true }) (.incomingMsg (some (c07Logon 1 [(789, "1")]))); (c07Summary r.1, c07Wires r.2.1))
+       == ((2, 2, [1], 1, "InSession"), [("A", 1, [(108, "30"), (789, "2")]), ("4", 1, [(36, "6"), (43, "Y"), (122, "+"), (123, "Y")])])
+-- (5) an initiator accepts a Logon whose 789 = 9 is above its next number 6 and sends a gap fill numbered 9 with NewSeqNo 7
+#guard (let r := step (c07Conn c07NxI) (.incomingMsg (some (c07Logon 7 [(789, "9")]))); (c07Summary r.1, c07Wires r.2.1, r.2.1.filter (· == .onLogon)))
+       == ((6, 8, [5], 0, "InSession"), [("4", 9, [(36, "7"), (43, "Y"), (122, "+"), (123, "Y")])], [.onLogon])
+-- a Logon that opens a gap (number 9, expected 7) with 789 = 3, persistence on: reply (789 = 8), gap fill, and the ResendRequest for
+-- [7, ∞) queued behind them — the expected number stays 7
+#guard (let r := step (c07Conn c07NxA) (.incomingMsg (some (c07Logon 9 [(789, "3")]))); (c07Summary r.1, c07Wires r.2.1, r.1.toSend.map (fun o => (o.kind, o.f))))
+       == ((7, 7, [6, 5], 0, "Resend"), [("A", 5, [(108, "30"), (789, "8")]), ("4", 3, [(36, "6"), (43, "Y"), (122, "+"), (123, "Y")])], [("2", [(7, "7"), (16, "0")])])
 -- ResetOnLogout / ResetOnDisconnect: (1, 1) right after
 #guard (let s := runEvents (initSess { resetOnLogout := true } 5 7) [.connect, .incomingMsg (some (c07Logon 7 []))]
         c07Summary (step s (.incomingMsg (some (c07Msg "5" 8 [])))).1) == (1, 1, [], 1, "Latent")
@@ -445,6 +728,14 @@ Clause checklist (properties.jsonl C07 → theorems)
         the answer: initiator — C07_logon_reset_echo (no second reset); acceptor — C07_logon_reset_echo_acceptor,
         C07_own_reset_answer_not_answered (after `fix:` cbdc133; before it — C07_orig_echo_of_own_reset_resets_again — the engine
         answered the peer's answer with another Logon 1 / 141=Y and reset again: C07.echo_of_own_reset_resets_again{role=acceptor})
+* EnableNextExpectedMsgSeqNum (tag 789): NO sentence of the property speaks about it; the option is tied to the code by the
+  correspondence only, and the theorems are descriptive: what our own Logon carries (C07_next_expected_own: NextTarget+1 read before
+  the send), what the acceptor's reply carries (C07_next_expected_reply, = the expected number after acceptance:
+  C07_next_expected_accepted), acceptor + peer's 789 higher ⇒ refused (C07_next_expected_ahead_refused, _refused_only_ahead,
+  _refusal_logs_out), equal / absent / unreadable / option off / tag 141 ⇒ nothing (C07_next_expected_equal), different + persistence
+  ⇒ one gap fill from the peer's 789 to (number on arrival + 1), store untouched (C07_next_expected_differs), different without
+  persistence ⇒ `targetTooHigh{789, our outbound number}` (C07_next_expected_differs_nopersist, _nopersist_logon_state).  With the
+  option off the Logons carry no 789 and `handleLogon` is what it was (`logonTail_off`, `nxEval_off`).
 * the reset flag exists from FIX.4.1                               : C07_no_reset_flag_fix40 (+ `1 ≤ bs` in C07_logon_reset_sent_iff) for the
         Logon of `connect`; remark (#guard): the ResetSeqTime Logon carries 141 whatever the BeginString — the property is silent there
 * ResetOnLogout / ResetOnDisconnect return both counters to 1 exactly at logout / disconnect
